@@ -90,7 +90,7 @@ Section SetReq.
         match so with
         | StOk => run_phase step rest t' ce
         | StErr => if so_best_effort o then run_phase step rest t' true else (t', ce, Some SRErr)
-        | StJoinErr => (t', ce, Some (if so_best_effort o then SRPanic else SRErr))
+        | StJoinErr => (t', ce, Some SRErr)          (* a join error is returned as is, also in best-effort mode *)
         | StPanic => (t', ce, Some SRPanic)
         end
     end.
